@@ -146,7 +146,7 @@ fn jobs_of(p: &Program, rng: &mut Rng) -> Vec<Job> {
 }
 
 pub fn run(cx: &mut Cx) {
-    let total = cx.total(1500, 100_000);
+    let total = cx.total(1000, 100_000);
     let vars = base_context();
     for case in cx.my_cases(total) {
         cx.begin_case(case, "program");
